@@ -38,6 +38,9 @@ CHECKS = {
  "C13": dict(technique="model-based + metamorphic property testing (proptest) on materialised directory trees: selection/closure model, stand-alone analysis equality, relocation invariance",
              text="Generated-input search over directory trees, exclude sets and absolute placements; oracles: selection + import-closure model, per-file equality with a stand-alone analysis, identical root-relative results and CLI output across placements. Exploration only.",
              note="trusted: the harness's model of file selection written from the documented ignore list and pytest's default patterns; tmpfs semantics of /dev/shm", ref="DESIGN.md 4 C13", engine="vengine"),
+ "C14": dict(technique="model-based property testing (proptest) of the real scanner on materialised trees with a synthetic virtualenv: import-closure / plugin / classification model vs the scanned index",
+             text="Generated-input search over import graphs and virtualenv layouts; oracle is the reference model's visible set per file plus classification by where the source lives. Exploration only.",
+             note="trusted: reference model (model.rs); the synthetic venv layouts mirror pip's dist-info / egg-info / editable conventions as documented in scanner.rs", ref="DESIGN.md 4 C14", engine="vengine"),
 }
 PENDING = {
 }
